@@ -621,6 +621,106 @@ func c17r4(c *core.Ctx) {
 		c.Check(core.Dominated(i, inline), "empty-element-is-inline-end-marker@"+fname(dec), posOf(i), "the emptiness test of a decoded element is made for inline lists only",
 			"an element of a tagged list is tested for emptiness: an element whose fields all hold zero is dropped (or ends the list) although it is on the wire")
 	})
+	// ... and for inline lists the end is not read off the element's VALUE either: an element whose fields are all zero is on the
+	// wire like any other ( VideoCodecProfile{0}, the first entry of the library's own default video configuration ). A test of the
+	// freshly decoded instance that decides whether the loop goes on ends the list at the first such element. What the end can be
+	// read off is the reader: whether decoding the element consumed anything.
+	nv, badv := 0, 0
+	core.Instrs(dec, func(i ssa.Instruction) {
+		call, ok := i.(*ssa.Call)
+		if !ok || !reachesAfter(i, i) {
+			return
+		}
+		if b, isB := call.Type().Underlying().(*types.Basic); !isB || b.Kind() != types.Bool {
+			return
+		}
+		onInstance := false
+		for _, a := range call.Call.Args {
+			if len(newInstanceCalls(a)) > 0 {
+				onInstance = true
+			}
+		}
+		if !onInstance {
+			return
+		}
+		nv++
+		decides := false
+		var visit func(v ssa.Value, d int)
+		visit = func(v ssa.Value, d int) {
+			if d == 0 || v.Referrers() == nil {
+				return
+			}
+			for _, r := range *v.Referrers() {
+				switch x := r.(type) {
+				case *ssa.If:
+					decides = true
+				case *ssa.UnOp:
+					visit(x, d-1)
+				case *ssa.BinOp:
+					visit(x, d-1)
+				case *ssa.Phi:
+					visit(x, d-1)
+				}
+			}
+		}
+		visit(call, 4)
+		if decides {
+			badv++
+			c.Bad("list-end-independent-of-element-value@"+fname(dec), posOf(i), "inside the element loop a test of the decoded element's value decides how the loop goes on: an element whose fields all hold zero ends the list (or is dropped) — the elements after it are lost or decoded into other fields; the library's own DefaultVideoStreamConfiguration (first profile = 0) does not survive Marshal/Unmarshal")
+		}
+	})
+	if badv == 0 {
+		c.OK("list-end-independent-of-element-value@"+fname(dec), dec.Pos(), "no test of a decoded element's value decides the element loop (%d boolean calls on the instance looked at)", nv)
+	}
+	// fragment merge target: a continuation fragment extends the LAST bucket of its tag. Extending the bucket at a constant index while
+	// another branch of the same function appends further buckets to that list merges the continuation of a later list element into an earlier one.
+	if rd := p.Func("tlv8", "read"); rd != nil {
+		appendsBucket := false // append(l, v): a new bucket for an existing tag
+		var constMerge ssa.Instruction
+		isBucketList := func(t types.Type) bool {
+			sl, ok := t.Underlying().(*types.Slice)
+			if !ok {
+				return false
+			}
+			el, ok := sl.Elem().Underlying().(*types.Slice)
+			if !ok {
+				return false
+			}
+			b, ok := el.Elem().Underlying().(*types.Basic)
+			return ok && b.Kind() == types.Uint8
+		}
+		core.Instrs(rd, func(i ssa.Instruction) {
+			call, ok := i.(*ssa.Call)
+			if !ok {
+				return
+			}
+			if b, isB := call.Call.Value.(*ssa.Builtin); !isB || b.Name() != "append" {
+				return
+			}
+			a0 := call.Call.Args[0]
+			if isBucketList(a0.Type()) && !core.IsNilConst(a0) {
+				if _, fresh := a0.(*ssa.Slice); !fresh || len(appendedValues(call)) == 0 {
+					appendsBucket = true
+				} else if _, isAlloc := a0.(*ssa.Slice).X.(*ssa.Alloc); !isAlloc {
+					appendsBucket = true
+				}
+				return
+			}
+			// append(l[K], v...) with constant K
+			if u, isU := a0.(*ssa.UnOp); isU && u.Op == token.MUL {
+				if ia, isIA := u.X.(*ssa.IndexAddr); isIA && isBucketList(ia.X.Type()) {
+					if _, isK := core.ConstInt(ia.Index); isK {
+						constMerge = i
+					}
+				}
+			}
+		})
+		if constMerge != nil && appendsBucket {
+			c.Bad("fragment-extends-last-bucket@"+fname(rd), posOf(constMerge), "a continuation fragment is appended to the bucket at a constant index although the list of that tag can hold several buckets (another branch appends to it): the continuation of a long element of a tagged list is merged into an earlier element and the element itself is cut (or the list collapses)")
+		} else {
+			c.OK("fragment-extends-last-bucket@"+fname(rd), rd.Pos(), "no continuation fragment is merged at a constant position of a list that can grow")
+		}
+	}
 }
 
 func newInstanceCalls(v ssa.Value) []*ssa.Call {
@@ -857,6 +957,24 @@ func delimiterFlagMeaning(c *core.Ctx, rd *ssa.Function, flag *ssa.Phi) {
 	isFlag := func(v ssa.Value) bool { return v == ssa.Value(flag) }
 	okUse, n := true, 0
 	core.Instrs(rd, func(i ssa.Instruction) {
+		// merge in place: l[k] = append(l[k], v...) on the looked-up list
+		if st, isSt := i.(*ssa.Store); isSt {
+			if ia, isIA := st.Addr.(*ssa.IndexAddr); isIA {
+				if sl, isSl := ia.X.Type().Underlying().(*types.Slice); isSl {
+					if _, isInner := sl.Elem().Underlying().(*types.Slice); isInner {
+						if call, isC := st.Val.(*ssa.Call); isC {
+							if b, isB := call.Call.Value.(*ssa.Builtin); isB && b.Name() == "append" {
+								n++
+								if !core.Dominated(st, core.FalseFact(isFlag)) {
+									okUse = false
+								}
+							}
+						}
+					}
+				}
+			}
+			return
+		}
 		mu, ok := i.(*ssa.MapUpdate)
 		if !ok {
 			return
